@@ -265,6 +265,16 @@ pub fn load(text: &str) -> Result<Loaded, LoadError> {
         if renamed.len() != d.len() {
             return bad("dynamic parameter names collide");
         }
+        // exactly the verifier's parameter set: nothing missing, nothing surplus
+        match serde_json::from_value::<swiftness_air::dynamic::DynamicParams>(Value::Object(renamed.clone())) {
+            Ok(dp) => {
+                let known = serde_json::to_value(&dp).unwrap();
+                if known.as_object().map(|o| o.len()) != Some(renamed.len()) {
+                    return bad("dynamic_params holds names the verifier does not know");
+                }
+            }
+            Err(e) => return bad(format!("dynamic_params: {e}")),
+        }
         public_input["dynamic_params"] = Value::Object(renamed);
     }
 
